@@ -47,6 +47,11 @@ claimed["C09"] = dict(
    note="Trusted: govc and the SMT solvers; reflect.StructTag.Get and strings.Cut as uninterpreted functions; the transcription of the encoding/json field rules; nodes of the analysis result are not written outside package analysis (checked syntactically at load); in the generator loops every callee without contract is havocked. Not decided: that the emitted TypeScript / Dart / PL-pgSQL texts actually use the key (needs their grammars); which fields an embedded struct contributes (known finding).",
    ref="DESIGN §4 C09")
 
+claimed["C12"] = dict(
+   text="Kernel claim: the induction steps and the source order, proved for all inputs. createType (modular over its recursion with handleType): the node built for a type has the kind go/types reports — an Array node for an array (Len = its length) or a slice (Len = -1) with a non-nil element node, a Map node with non-nil key and element nodes, a Pointer node, a Basic node holding exactly the underlying *types.Basic, a Struct node carrying the named type, the enum node of the context for an enum, a Union node carrying the named type with one non-nil member node per member; the table never holds a nil node. Type() of every node kind rebuilds the Go type from the node's own links (array iff Len >= 0, slice otherwise; map from key and element; pointer; the stored name / basic; time and date as the two predefined types). NewAnalysisFromFile reports exactly the type names of the package scope declared in the given file, in increasing source position. An always-run bounded harness checks closure, types.Identical round trips and termination on one module with recursive and mutually recursive declarations.",
+   note="Trusted: govc and the SMT solvers; go/types accessors and constructors as uninterpreted functions with the axioms of contracts/extern/base.spec; every implementation of Type.Type() is a pure function of the node (interface dispatch is one uninterpreted function: the per-kind contracts are NOT linked back to it); fetchEnumsAndUnions and fetchStructComments have assumed contracts pinned to their code. NOT decided by this check: closure (every reachable type is in the result), the global identity of round trips over cyclic graphs, and termination of the analysis on recursive declarations — they need a coinductive argument over the finite go/types graph and an in-progress set the memo table does not separate; the bounded harness is all there is for them.",
+   ref="DESIGN §4 C12")
+
 not_applicable = {
  "C01": "type-checking of emitted Go text for all inputs needs a typing judgement over Sprintf templates; no contract on a Go function returning a string can express it (DESIGN §5)",
  "C02": "round trip and wire bytes are run-time behaviour of the emitted wrappers under encoding/json; a contract on the generator can only restate its templates (DESIGN §5)",
